@@ -196,6 +196,46 @@ def run(prog, rep):
                 else:
                     rep.ok("fresh-containers", f"{c.name}.{a} = {norm(v)[:60]}")
     rep.floor("fresh-containers", n_cont, 8)
+    # a container the class itself mutates (add/remove methods) must be the instance's own object, not the caller's
+    for m in prog.modules.values():
+        for c in m.classes.values():
+            mutated = set()
+            for f in c.all_funcs():
+                sn = f.self_name or "self"
+                for x in walk_no_nested(f.node):
+                    if isinstance(x, ast.Call) and isinstance(x.func, ast.Attribute) and x.func.attr in ("append", "extend", "insert", "remove", "pop", "clear") and is_self_attr(x.func.value, self_name=sn):
+                        mutated.add(x.func.value.attr)
+                    if isinstance(x, ast.Delete):
+                        for t in x.targets:
+                            if isinstance(t, ast.Subscript) and is_self_attr(t.value, self_name=sn):
+                                mutated.add(t.value.attr)
+            for f in c.all_funcs():
+                sn = f.self_name or "self"
+                params = set(f.params)
+                for x in walk_no_nested(f.node):
+                    if isinstance(x, (ast.Assign, ast.AnnAssign)) and x.value is not None:
+                        tg = x.targets if isinstance(x, ast.Assign) else [x.target]
+                        for t in tg:
+                            if is_self_attr(t, self_name=sn) and t.attr in mutated:
+                                v = x.value
+                                cands = [v] + (list(v.values) if isinstance(v, ast.BoolOp) else []) + ([v.body, v.orelse] if isinstance(v, ast.IfExp) else [])
+                                if any(isinstance(k, ast.Name) and k.id in params for k in cands):
+                                    rep.fail("fresh-containers", m.path.name, f"{c.name}.{f.name}", x, f"`self.{t.attr}`, which the class's own add/remove methods mutate, is bound to the caller's object `{norm(v)}` without a copy: two blocks given the same list change together")
+    tdf = prog.cls("Tdf", "basictdf")
+    if tdf is not None:
+        for name in ("get_block", "__getitem__", "blocks"):
+            for f in tdf.methods.get(name, []):
+                sn = f.self_name or "self"
+                for x in walk_no_nested(f.node):
+                    if isinstance(x, (ast.Assign, ast.AugAssign)):
+                        for t in (x.targets if isinstance(x, ast.Assign) else [x.target]):
+                            base = t
+                            while isinstance(base, (ast.Attribute, ast.Subscript)):
+                                base = base.value
+                            if isinstance(base, ast.Name) and base.id == sn:
+                                rep.fail("decoder-fresh", m.path.name if False else "basictdf.py", f"Tdf.{name}", x, "a decoded block is remembered on the file handle: reading the same block twice returns one shared object")
+                    if isinstance(x, ast.Call) and isinstance(x.func, ast.Attribute) and x.func.attr in ("setdefault", "get") and is_self_attr(x.func.value, self_name=sn) and x.func.value.attr not in ("entries",):
+                        rep.fail("decoder-fresh", "basictdf.py", f"Tdf.{name}", x, "decoded blocks are looked up in a memo kept on the file handle")
     # module state
     n_mod = 0
     for m in prog.modules.values():
